@@ -263,6 +263,18 @@ func c38GenReq(rt *rapid.T, idx int) *c38Req {
 		}
 	}
 	if rapid.IntRange(0, 3).Draw(rt, "prefixed") == 0 {
+		// bfe_http2.TrailerPrefix is documented for "trailers that are not known prior to the
+		// headers being written": make sure the header has been written (flushed) first.
+		flushedAlready := false
+		for _, o := range q.ops {
+			if o.Kind == opFlush {
+				flushedAlready = true
+			}
+		}
+		if !flushedAlready {
+			add(hop{Kind: opFlush}, "Flush")
+			m.writeHeader(200)
+		}
 		for _, nm := range c38LateTrailerNames[:rapid.IntRange(1, 2).Draw(rt, "nPrefixed")] {
 			v := c38ValueGen.Draw(rt, "pvalue")
 			add(hop{Kind: opSetHeader, K: "Trailer:" + nm, V: v}, fmt.Sprintf("Set(%q,%q)", "Trailer:"+nm, v))
@@ -312,10 +324,6 @@ func c38Run(rt *rapid.T, rec *ev.Rec) {
 		id := uint32(2*i + 1)
 		path := fmt.Sprintf("/r%d", i)
 		h := r.expectHandler(path, append([]hop{}, q.ops...))
-		if len(q.ops) == 0 {
-			// expectHandler treats nil as interactive; an empty plan just returns
-			close(h.ops)
-		}
 		if r.writeHeaders(id, reqFields(q.method, path), true) != nil {
 			rec.Fail(rt, "conn-closed-unexpectedly", w(), "connection ended before request %d", i)
 			return
